@@ -1,4 +1,5 @@
 import ZeepModel.Xsd.Parse
+import ZeepProofs.Lemmas.AllQueue
 /-! Shrinking / progress facts about the deque parser, for every gas, mode, particle and deque —
 in particular for every value of maxOccurs (the round limit `n` is universally quantified). -/
 namespace Zeep.Xsd
@@ -25,7 +26,7 @@ structure Shrinks (gas : Nat) : Prop where
       r.val.length + r.rest.length ≤ xs.length
   choiceOptions : ∀ m ps i xs r, choiceOptions gas m ps i xs = .ok r →
       r.rest = xs ∧ ∀ j inst c, r.val = some (j, inst, c) → 0 < c ∧ c ≤ xs.length
-  allMembers : ∀ m ps xs r, allMembers gas m ps xs = .ok r → r.rest = xs
+  allMembers : ∀ m ps xs r, allMembers gas m ps xs = .ok r → r.rest.length ≤ xs.length
   groupLoop : ∀ m p n xs r, groupLoop gas m p n xs = .ok r →
       r.rest.length ≤ xs.length ∧ r.val.length + r.rest.length ≤ xs.length + 1
 
@@ -184,10 +185,10 @@ theorem step_choiceLoop (gas : Nat) (ih : Shrinks gas) :
         omega
 
 theorem step_allMembers (gas : Nat) (ih : Shrinks gas) :
-    ∀ m ps xs r, allMembers (gas + 1) m ps xs = .ok r → r.rest = xs := by
+    ∀ m ps xs r, allMembers (gas + 1) m ps xs = .ok r → r.rest.length ≤ xs.length := by
   intro m ps xs r h
   cases ps with
-  | nil => simp only [allMembers, pure_eq_ok] at h; subst h; rfl
+  | nil => simp only [allMembers, pure_eq_ok] at h; subst h; simp
   | cons p ps =>
     cases p
     case elem q mn mx ty =>
@@ -196,10 +197,14 @@ theorem step_allMembers (gas : Nat) (ih : Shrinks gas) :
       · obtain ⟨r', hr', h⟩ := bind_ok _ _ _ h
         simp only [pure_eq_ok] at h; subst h
         exact ih.allMembers _ _ _ r' hr'
-      · obtain ⟨mine, _, h⟩ := bind_ok _ _ _ h
+      · obtain ⟨mine, hmine, h⟩ := bind_ok _ _ _ h
         obtain ⟨r', hr', h⟩ := bind_ok _ _ _ h
         simp only [pure_eq_ok] at h; subst h
-        exact ih.allMembers _ _ _ r' hr'
+        have h1 := ih.allMembers _ _ _ r' hr'
+        have h2 := ih.parseP _ _ _ _ hmine
+        have h3 := length_filter_split q xs
+        simp only [List.length_append] at h1
+        simp only; omega
     all_goals
       simp only [allMembers] at h
       obtain ⟨r', hr', h⟩ := bind_ok _ _ _ h
@@ -258,7 +263,10 @@ theorem step_parseP (gas : Nat) (ih : Shrinks gas) :
     split at h
     · simp only [pure_eq_ok] at h; subst h; simp
     · simp only [pure_eq_ok] at h; subst h
-      exact filter_length_le _ _
+      have h1 := ih.allMembers _ _ _ r' hr'
+      have h2 := byTag_length_le _ (tagsInOrder_spec (xs.filter fun x => (memberTags ps).contains x.tag) []).1 r'.rest
+      have h3 := length_filter_split_p (fun x : Node => (memberTags ps).contains x.tag) xs
+      simp only [List.length_append]; omega
   | group p min max =>
     simp only [parseP] at h
     obtain ⟨r', hr', h⟩ := bind_ok _ _ _ h
